@@ -605,7 +605,11 @@ def check(pid, P, tier, seed, work, replay, t0):
     # A spec-only line (implementation = model, spec verdict `bad`) is explained by a recorded finding only when
     # the finding names this stream and its `verdict_regex` matches the verdict text: a failure for any OTHER
     # reason on which implementation and model agree (e.g. because the model follows a regenerated fact) is new.
-    def explained_by(stream, verdict):
+    def explained_by(stream, verdict, model=""):
+        # a driver that decides itself, exactly, whether a recorded finding predicts the observation (C14, C08) marks
+        # the model observation of every failure it cannot explain: such a line is never explained by a regex
+        if "UNEXPLAINED-PROPERTY-FAILURE" in (model or ""):
+            return None
         for k in known_open:
             if stream in (k.get("streams") or []) and re.search(k.get("verdict_regex") or r"$^", verdict):
                 return k["id"]
@@ -615,15 +619,15 @@ def check(pid, P, tier, seed, work, replay, t0):
     explained_by_finding = {}
     for stream, ops, its in all_issues:
         div = [x for x in its if not x[1] == "spec"]
-        unexplained = [x for x in its if x[1] == "spec" and explained_by(stream, x[5]) is None]
+        unexplained = [x for x in its if x[1] == "spec" and explained_by(stream, x[5], x[4]) is None]
         if div or unexplained:
             # spec-only lines that ARE explained must not steer the search: mark them so
-            marked = [x if not (x[1] == "spec" and explained_by(stream, x[5])) else (x[0], "known", x[2], x[3], x[4], x[5]) for x in its]
+            marked = [x if not (x[1] == "spec" and explained_by(stream, x[5], x[4])) else (x[0], "known", x[2], x[3], x[4], x[5]) for x in its]
             new_issues.append((stream, ops, marked))
         else:
             explained += 1
             for x in its:
-                fid = explained_by(stream, x[5])
+                fid = explained_by(stream, x[5], x[4])
                 explained_by_finding[fid] = explained_by_finding.get(fid, 0) + 1
     for st_ in stats_all.values():
         u = st_.pop("_hash_union", None)
@@ -659,12 +663,18 @@ def report_violation(pid, P, tier, seed, t0, work, h, broken, new_issues, stats_
         known_open = [k for k in load_json(os.path.join(VERIF, "known_findings.json"), {"findings": []})["findings"]
                       if k.get("status") == "known" and pid in k.get("properties", [k.get("property")])]
 
-        def is_explained(stream, verdict):
+        def is_explained(stream, verdict, model=""):
+            if "UNEXPLAINED-PROPERTY-FAILURE" in (model or ""):
+                return False
             return any(stream in (k.get("streams") or []) and re.search(k.get("verdict_regex") or r"$^", verdict) for k in known_open)
 
         def mk_preds(stream):
-            new_spec = lambda x: "spec" in x[1] and not is_explained(stream, x[5])
-            any_new = lambda x: x[1] not in ("spec", "known") or (x[1] == "spec" and not is_explained(stream, x[5]))
+            # A recorded finding explains a specification failure only on a line where implementation and model
+            # AGREE (kind "spec"): the model carries the recorded defect (or the driver decides exactly what the
+            # finding predicts), so agreement means "this is the recorded behaviour".  Where they differ and the
+            # specification is contradicted, the failure is not the one the record predicts, whatever its text.
+            new_spec = lambda x: "spec" in x[1] and (x[1] != "spec" or not is_explained(stream, x[5], x[4]))
+            any_new = lambda x: x[1] not in ("spec", "known") or (x[1] == "spec" and not is_explained(stream, x[5], x[4]))
             return new_spec, any_new
         spec_cases = [(s, o, i) for (s, o, i) in new_issues if any(mk_preds(s)[0](x) for x in i)]
         pick = min(spec_cases or new_issues, key=lambda t: len(t[1]))
